@@ -88,13 +88,27 @@ package hq
 //@   loop for invariant [batch-kept] batch == old(batch) && samearray(batch.URLs, urls0) && len(batch.URLs) == len(urls0) && batch.ChildsCaptured == childs0 && gocrawlhq.nDeletes() >= dels0
 //@   ensures [delivered] gocrawlhq.nDeletes() >= dels0 + 1 && gocrawlhq.lastDelete(urls0, childs0) && (gocrawlhq.lastDeleteOK() || closed(done(ctx))) // C15: every finished seed is acknowledged to the queue ... transient crawl-HQ errors (5xx answers, timeouts) delay but never drop these deliveries
 
-// finisherReceiver: the acknowledgement record of a finished seed carries the seed's id.
-// (No batching invariants here: item.Traverse(closure) is a higher-order call whose frame the
-// engine cannot express - "everything" is havocked after it, including the batch.)
+// finisherReceiver: the acknowledgement record of a finished seed carries the seed's id, and the
+// batching conserves records exactly like producerReceiver (same ghost counters, own names):
+// every record received is either in the batch being filled or was handed to the dispatcher,
+// and the batch being filled never shares its backing array with the batch handed over last
+// (the dispatcher's copy may still be waiting for a retry). item.Traverse(closure) is used by
+// contract (models: modifies effects(fn)): the closure only counts children.
+//@ ghost var frRecv int
+//@ ghost var frHanded int
+//@ ghost var frLastSent mathint
 //@ func finisherReceiver
 //@   property C15
-//@   requires globalHQ != nil
+//@   requires globalHQ != nil && config.config != nil && config.config.HQBatchSize >= 0
+//@   requires frRecv == 0 && frHanded == 0 && frLastSent == 0
+//@   after selrecv(finishCh)#1: frRecv = frRecv + 1
+//@   after selsend(batchCh)#1: frHanded = frHanded + len(batch.URLs); frLastSent = arrof(batch.URLs)
+//@   after selsend(batchCh)#2: frHanded = frHanded + len(batch.URLs); frLastSent = arrof(batch.URLs)
 //@   assert Traverse(item)#1: [ack-id] URL.ID == item.id && URL.Type == "seed" // C15: every finished seed is acknowledged to the queue by its id
+//@   loop for modifies frRecv, frHanded, frLastSent
+//@   loop for invariant [conserved] frRecv == frHanded + len(batch.URLs) && batch != nil // C15: every finished seed is acknowledged to the queue
+//@   loop for invariant [size-trigger] 0 <= len(batch.URLs) && len(batch.URLs) < batchSize && batchSize >= 1
+//@   loop for invariant [unshared] arrof(batch.URLs) != frLastSent && (frLastSent == 0 || allocated(frLastSent)) // C15: transient crawl-HQ errors delay but never drop these deliveries (a batch waiting for its retry is not overwritten by the batch being filled)
 
 // The dispatchers' sender goroutines: the batch taken from batchCh is the batch given to the
 // sender (whole).
